@@ -141,7 +141,30 @@ def _integrator(run, ci):
     run.functions += 1
     K = '%s|%s|integrate|' % (M, ci.name)
     sp = fn.args.args[1].arg
+    # a local view of the spectral array (samples = spectrum.samples_mv) is the array
+    views = [st for st in ast.walk(fn) if isinstance(st, ast.Assign) and len(st.targets) == 1 and isinstance(st.targets[0], ast.Name)
+             and norm(st.value) == sp + '.samples_mv']
+    if views:
+        import copy as _copy
+        fn = _copy.deepcopy(fn)
+        names = {v.targets[0].id for v in views}
+
+        class _V(ast.NodeTransformer):
+            def visit_Name(self, n):
+                if n.id in names and not isinstance(n.ctx, ast.Store):
+                    return ast.copy_location(ast.Attribute(value=ast.Name(id=sp, ctx=ast.Load()), attr='samples_mv', ctx=ast.Load()), n)
+                return n
+        fn.body = [_V().visit(st) for st in fn.body if not (isinstance(st, ast.Assign) and len(st.targets) == 1
+                                                            and isinstance(st.targets[0], ast.Name) and st.targets[0].id in names)]
+        ast.fix_missing_locations(fn)
     sts = _spec_stores(fn, sp)
+    for st in ast.walk(fn):
+        if isinstance(st, ast.Assign) and any(norm(t).startswith(sp + '.samples_mv[') for t in st.targets):
+            run.subject('C10-R2')
+            run.fail('C10-R2', K + 'overwrite', ci.mod.relpath, st.lineno,
+                     '%s.integrate assigns %s = %s: the ray may have crossed the same source earlier (a source that is not convex, or '
+                     'several cells mapped to one source), and the length collected then is overwritten instead of added to'
+                     % (ci.name, norm(st.targets[0]), norm(st.value)))
     loops = [l for l in fn.body if isinstance(l, ast.For)]
     if len(loops) != 1 or not sts:
         raise AnalysisError('%s.integrate: sample loop or spectrum stores not found' % ci.name)
